@@ -1,7 +1,7 @@
 """C06 — pipeline property decided by the Lean oracle on generated crystals (see checks/pipe.py)."""
 from checks import pipe
 
-PROPS = [("Moyo.Props.C06", "Moyo/Props/C06.lean")]
+PROPS = [("Moyo.Props.C06", "Moyo/Props/C06.lean"), ("Moyo.Props.C06Stages", "Moyo/Props/C06Stages.lean")]
 
 
 def nontrivial(p, line):
@@ -11,7 +11,7 @@ def nontrivial(p, line):
 def run(tier, seed):
     return pipe.run_property("C06", tier, seed, ['hall', 'noise', 'hallreq', 'lowsym'], PROPS,
                              {"rule": 'every Hall setting in both conventions, noisy twins (<= 5% symprec), and every requested Hall setting; non-trivial when a dataset was returned and the setting is not P1'},
-                             nontrivial,
+                             nontrivial, stages=["s6", "s7"],
                              trusted=["premise validation of the generator (the generated crystal has exactly the generating group, symmetry gap >= 0.2 A) is a brute-force search in Rust, independent of moyo",
                                       "f64 rounding inside moyo is not modelled: the oracle judges the returned values in exact rational arithmetic",
                                       "the oracle's float code only orders candidate sites; every verdict is an exact test (Proofs/OracleSite.lean)"])
